@@ -97,3 +97,25 @@ pub fn trunc(s: &str, n: usize) -> String {
         format!("{}…(+{} bytes)", &s[..e], s.len() - e)
     }
 }
+
+/// a copy of `seq` whose first byte sits at an address congruent to `t` modulo 16; the sequence is
+/// surrounded by bytes that are NOT part of the slice handed out (a word-wise reader that looks before
+/// or behind the slice would see nucleotides there)
+pub struct Aligned {
+    buf: Vec<u8>,
+    start: usize,
+    len: usize,
+}
+
+impl Aligned {
+    pub fn new(seq: &[u8], t: usize) -> Self {
+        let mut buf = vec![b'A'; seq.len() + 48];
+        let base = buf.as_ptr() as usize;
+        let start = 16 + ((t + 16 - (base + 16) % 16) % 16);
+        buf[start..start + seq.len()].copy_from_slice(seq);
+        Aligned { buf, start, len: seq.len() }
+    }
+    pub fn get(&self) -> &[u8] {
+        &self.buf[self.start..self.start + self.len]
+    }
+}
